@@ -42,6 +42,14 @@ func (m *OrderedMap[K, V]) binarySearch(key K) (int, bool) {
 			high = mid
 		}
 	}
+	// the ordering is not guaranteed to be consistent with eq
+	// (keys may be unequal yet neither less than the other),
+	// in which case the binary search can miss an existing key
+	for i := 0; i < len(m.data); i += 2 {
+		if m.eq(m.data[i].(K), key) {
+			return i, true
+		}
+	}
 	return low, false
 }
 
